@@ -119,6 +119,15 @@ CHECKS["C14"] = dict(
     note="Scripted back-end; bounded run length (K<=2 quick, <=4 thorough); parallel batches covered by seeded-change experiments only.",
     design="4 (C14)")
 
+CHECKS["C18"] = dict(
+    text="ConfigCanon.tla: canonical projection and rejection predicate of symbolic raw configurations; TLC checks normalised weights "
+         "(sum one, ratios preserved), clamped thresholds, broadcast lengths and ordered bounds over three families (weights/thresholds; "
+         "bounds/masks/perturbation types/magnitudes in scalar, vector, wrong-length, crossed and infinite forms; constraint shapes); each "
+         "is validated by EnOptConfig, dumped to JSON and re-validated, validated again as an object, and every attribute and array "
+         "reachable from the result is mutation-tested; Trace_C18 compares all projections with the spec.",
+    note="Re-validation without transforms context; dyadic magnitudes; option dictionaries are not mutation-tested.",
+    design="4 (C18)")
+
 NOT_APPLICABLE = {}
 
 def main():
